@@ -546,3 +546,135 @@ class MustFollow2(MustFollow):
             return out
         self.flow = Flow(self.prog, self.f, [(Z, Z, 0, 0)], xf, self.refine).run()
         return self
+
+
+SENSE_EXCEPT = {
+    "convert_rawlpdata_to_lpdata": "raw-LP conversion: the row senses are stored before ILLlp_add_logicals creates the logical columns from them",
+    "transferRanges": "raw-LP conversion: marks ranged rows 'R' before ILLlp_add_logicals derives the logical columns",
+    "transferSenseRhsRowNames": "raw-LP conversion: senses are stored before the logical columns exist (ILLlp_add_logicals derives them)",
+}
+
+
+def run_coupd_sense(prog, E=None, rule="R-COUPD"):
+    """co-update of a row's sense with its logical column: the sense letter (query API, writers) and the logical column's lower bound,
+    upper bound and coefficient (what the solver sees) are two representations of the same fact.  Every store of a new (non-repacking)
+    value into ILLlpdata::sense is accompanied, on every path of the same loop iteration (or of the function) that completes, by a write
+    to ILLlpdata::lower, to ILLlpdata::upper and to ILLmatrix::matval - directly or through a callee."""
+    from .certdep import natural_loops
+    E = E or Effects(prog)
+    res = RuleResult(rule + "(sense)", "every path that stores a new row sense also writes the logical column's lower bound, upper bound and "
+                                      "coefficient before the iteration / the function completes")
+    partners = ("ILLlpdata::lower", "ILLlpdata::upper", "ILLmatrix::matval")
+    nsites = 0
+    n_append = [0]
+
+    def dim_of_expr(f, ix):
+        """'nrows' when the index expression is the row count itself (field, or a local assigned from it and nothing else)"""
+        if isinstance(ix, list) and ix and ix[0] == "m":
+            return ix[2].split("::")[1]
+        if is_var(ix, kind="l"):
+            srcs = set()
+            for b2, i2, e2 in f.elements():
+                if e2[0] == "A" and e2[1][1] == "=" and is_var(e2[1][2], name=ix[2]):
+                    r = strip(e2[1][3])
+                    srcs.add(r[2].split("::")[1] if isinstance(r, list) and r and r[0] == "m" else "?")
+                elif e2[0] == "D":
+                    for n2, init in e2[1]:
+                        if n2 == ix[2] and init is not None:
+                            r = strip(init)
+                            srcs.add(r[2].split("::")[1] if isinstance(r, list) and r and r[0] == "m" else "?")
+                elif e2[0] == "U" and is_var(e2[1][2], name=ix[2]):
+                    srcs.add("?")
+            if len(srcs) == 1:
+                return list(srcs)[0]
+        return None
+    for f in sorted(prog.funcs.values(), key=lambda x: x.key):
+        if not f.unit.startswith("qsopt_ex/") or "_dbl." in f.unit or "_mpf." in f.unit or f.live is None:
+            continue
+        stores = []
+        wr = {p: set() for p in partners}
+        for b, i, e in f.elements():
+            dst = None
+            if e[0] == "A" and e[1][1] == "=":
+                fl = fields_of(apath(e[1][2])[2])
+                if fl and fl[-1].endswith("ILLlpdata::sense") and "[]" in apath(e[1][2])[2]:
+                    sfl = fields_of(apath(e[1][3])[2])
+                    lhs = strip(e[1][2])
+                    ix = strip(lhs[2]) if isinstance(lhs, list) and lhs and lhs[0] == "i" else None
+                    appended = ix is not None and (dim_of_expr(f, ix) == "nrows")
+                    if appended:
+                        n_append[0] += 1          # the append slot of a new row: its logical column is created with it (R-APPENDINIT)
+                    elif not (sfl and sfl[-1].endswith("ILLlpdata::sense")):        # repacking sense[j] = sense[i]
+                        stores.append((b["id"], e[2], show(e[1])))
+                dst = e[1][2]
+            elif e[0] == "C" and e[1][3] and (callee(e[1]) or "").startswith(("mpq_", "mpz_")):
+                dst = e[1][3][0]
+            if dst is not None:
+                fl = fields_of(apath(dst)[2])
+                for p in partners:
+                    if fl and fl[-1].endswith(p):
+                        wr[p].add(b["id"])
+        if not stores:
+            continue
+        for (g, name, loc, args, bid, idx, c) in E.callinfo[f.key]:
+            if g is None:
+                continue
+            for (k, fp) in E.W.get(g.key, ()):
+                for p in partners:
+                    if fp and fp[-1].endswith(p):
+                        wr[p].add(bid)
+        nsites += len(stores)
+        if f.name in SENSE_EXCEPT:
+            res.obligations += len(stores)
+            res.excepted.append((f.name, SENSE_EXCEPT[f.name]))
+            continue
+        loops, dom, succ = natural_loops(prog, f)
+        for (wb, loc, txt) in stores:
+            inner = sorted((h for h in loops if wb in loops[h]), key=lambda h: len(loops[h]))
+            region = loops[inner[0]] if inner else set(f.live)
+            head = inner[0] if inner else None
+            starts = [s for s in succ.get(head, ()) if s in region and s != head] if inner else [f.entry]
+            for p in partners:
+                res.obligations += 1
+                res.nontrivial += 1
+                S = wr[p]
+                if wb in S:
+                    continue
+
+                def reach(srcs, goal):
+                    seen, wl = set(x for x in srcs if x not in S), [x for x in srcs if x not in S]
+                    while wl:
+                        x = wl.pop()
+                        if goal(x):
+                            return True
+                        for s in succ.get(x, ()):
+                            if inner and s == head:
+                                if goal("HEAD"):
+                                    return True
+                                continue
+                            if s in seen or s in S:
+                                continue
+                            if inner and s not in region:
+                                # leaving the loop: counts as completing only when a return can still be reached (it always can)
+                                if goal("OUT"):
+                                    return True
+                                continue
+                            seen.add(s)
+                            wl.append(s)
+                    return False
+                before = reach(starts, lambda x: x == wb)
+                if inner:
+                    after = reach(list(succ.get(wb, ())) if wb not in S else [], lambda x: x in ("HEAD", "OUT")) or any(s == head for s in succ.get(wb, ()))
+                else:
+                    after = reach(list(succ.get(wb, ())), lambda x: x == f.exit)
+                if before and after:
+                    res.violations.append(Violation(rule, "%s|sense stored without %s of the logical column" % (base(f.name), p.split("::")[1]), f.name, short_loc(loc),
+                                                    "%s stores a new row sense, and the %s can complete on a path that never writes %s: the query API and the "
+                                                    "writers report the new sense while the solver still sees the logical column of the old one" % (
+                                                        txt, "loop iteration" if inner else "function", p)))
+                else:
+                    res.sample({"function": f.name, "store": txt, "partner": p, "verdict": "written on every completing path"}, limit=6)
+    res.counts["sense_store_sites"] = nsites
+    res.counts["append_slot_stores_left_to_R-APPENDINIT"] = n_append[0]
+    res.floor("sense store sites", nsites, 4)
+    return res
